@@ -372,8 +372,9 @@ func (ni *NodeInfo) IsTaskFitOnGpuGroup(resourceRequest *resource_info.ResourceR
 }
 
 func (ni *NodeInfo) EnoughIdleResourcesOnGpu(resources *resource_info.ResourceRequirements, gpuGroup string) bool {
-	if _, foundOnAllocated := ni.AllocatedSharedGPUsMemory[gpuGroup]; !foundOnAllocated {
-		// If a gpu group is not found in allocated, it's an indication that this group is pipelined
+	if allocated, foundOnAllocated := ni.AllocatedSharedGPUsMemory[gpuGroup]; !foundOnAllocated || allocated <= 0 {
+		// If a gpu group is not found in allocated, it's an indication that this group is pipelined. The same holds
+		// for an entry left at 0: an allocation that was undone or converted to a nomination keeps its key.
 		return false
 	}
 	return ni.MemoryOfEveryGpuOnNode-ni.AllocatedSharedGPUsMemory[gpuGroup]-ni.GetResourceGpuMemory(resources) >= 0
